@@ -501,7 +501,7 @@ class Interp(ExprMixin):
         """A wire-valued result produced under value-dependent control (for R-C06-5)."""
         tainted = sorted(n for n, v in fr.env.items() if isinstance(v, V) and v.taint and not _wireish(v))
         gov = [(id(c), norm(c), pol) for c, pol, t in fr.conds if t]
-        key = (fr.fq, stmt.lineno, stmt.col_offset)
+        key = (fr.fq, stmt.lineno, stmt.col_offset, kind, name)
         self.wire_choices[key] = {"fi": fr.fi, "kind": kind, "name": name, "stmt": stmt, "value": value,
                                   "tainted_names": tainted, "gov": gov}
 
